@@ -441,7 +441,11 @@ class SymArray(np.ndarray):
                 val = plain(val)
                 if val.shape != sub_shape and val.size != 1:
                     if val.ndim and val.shape[1:] == sub_shape:
-                        raise EngineError('mask assignment with per-row values needs a concrete mask')
+                        # one value per selected row: NumPy's semantics depend on how many entries are selected ->
+                        # decide the mask (forking where it is symbolic) and let real NumPy do (or refuse) the assignment
+                        conc = _real_array([bool(S.as_sb(e)) for e in m.flat], dtype=bool).reshape(m.shape)
+                        np.ndarray.__setitem__(self, conc, _elementwise(lambda e: _cast_into(e, sd), val) if sd is not None and sd != object else val)
+                        return
                     val = np.broadcast_to(val, sub_shape)
             for idx in np.ndindex(*m.shape):
                 c = m[idx]
@@ -702,6 +706,9 @@ def array_ufunc(ufunc, method, inputs, out, kwargs):
         # typed concrete operands keep their NumPy integer semantics
         pin2 = [_typed_obj(x) if isinstance(x, np.ndarray) else x for x in pin2]
         pin2 = [_typed_obj_from(orig, x) for orig, x in zip(pin, pin2)]
+        if name in _METHOD_UFUNCS:
+            # object loops call e.<name>(): plain Python/NumPy numbers sitting in the array have no such method -> lift them
+            pin2 = [_elementwise(_lift_num, x) if isinstance(x, np.ndarray) else _lift_num(x) for x in pin2]
         r = ufunc(*pin2, **kw)
         sh = shadow_dtype(ufunc, inputs, {})
         if dt is not None and dt != object and isinstance(r, np.ndarray):
@@ -745,6 +752,15 @@ def array_ufunc(ufunc, method, inputs, out, kwargs):
         r = ufunc.outer(*pin, **kwargs)
         return _apply_shadow(r, shadow_dtype(ufunc.outer, inputs, {}))
     raise EngineError(f'ufunc method {name}.{method}')
+
+
+_METHOD_UFUNCS = {'sqrt', 'exp', 'log', 'log1p', 'cos', 'sin', 'tan', 'arccos', 'arcsin', 'tanh', 'arctan2', 'conjugate', 'square'}
+
+
+def _lift_num(e):
+    if isinstance(e, (int, float, complex, np.number, Fraction)) and not isinstance(e, (bool, np.bool_)):
+        return S.as_sc(e)
+    return e
 
 
 def _reduces_empty(p, axis):
